@@ -448,4 +448,5 @@ def run(ctx):
         "expressions are dimensionally homogeneous with the contract units (k: 1/L, density: L^dim, spectrum: V L^dim, pdf: L, cdf: 1, ppf: 1/L, sqrt(V) amplitudes) - a units-of-measure type inference with symbolic "
         "exponents (dim, hurst, ...), per dim-branch; (R04.2) a radial cdf/ppf is offered exactly for the dimensions in which it is implemented; (R04.3) spectrum = var x density, radial pdf = surface factor x |density| "
         "clamped at 0, default density = Hankel transform for the model's current dimension. NOT decided: that the density IS the Fourier transform (a wrong numeric factor keeps units), normalisation, cdf/ppf inverse relation."
+        ' (R04.7) result buffers allocated like a template are certainly floating point; (R04.8) model formulas read `self.dim` only; (R04.9) where a closed-form radial cdf / ppf exists, d/dr cdf equals surface factor times density and cdf(ppf(u)) reduces to u, as formulas per dimension branch (E11 DIFF); (R04.10) limit guards on data compare with 0.'
     )
